@@ -7,6 +7,43 @@ HERE = Path(__file__).resolve().parent.parent
 
 # id: (level, technique, level text, level note)
 CHECKS = {
+ 'C11': ('exploration',
+         'directory-snapshot monitor over the complete entry-point x origin-of-mode x state matrix',
+         'Every mutating entry point of Array and RaggedArray is called through a handle whose mode r was obtained in each '
+         'of five ways, in each array state (empty first axis, non-empty, ragged without subarrays / with only empty '
+         'subarrays, with and without metadata); the call must raise and a recursive byte snapshot of the directory must be '
+         'identical; after accessmode = r+ the same call must succeed where valid and show its effect. The matrix (880 '
+         'cells) is enumerated completely in both tiers.',
+         'Any exception class counts as "raises"; explicit open_array(accessmode="r+") overrides are out of the matrix.'),
+ 'C13': ('exploration',
+         'history + executable dict model (JSON round trip); bounded-exhaustive op sequences plus random ones',
+         'All sequences up to length 3/4 over 15 metadata operations from six start states on Array and RaggedArray, with '
+         'values rotating through 24 kinds (NaN, inf, non-ASCII, control characters, nested, NumPy scalars/arrays, tuples, '
+         'huge ints); after each step every read accessor of the live and of a fresh handle is compared with the JSON '
+         'round trip of a model dict, metadata.json must exist iff the model is non-empty, failing calls must raise the '
+         'stated class and leave the file untouched.',
+         'Own JSON encoder is the reference for NumPy conversions; bytes and np.bool_ values are not judged.'),
+ 'C16': ('exploration',
+         'directory-snapshot monitor (target, parent, symlink targets) over the complete delete and create matrices',
+         'delete_array/delete_raggedarray are run against arrays seeded with each kind of foreign content at each location '
+         'and through each call form, and against wrong-kind targets; each creating function is run with overwrite False/True '
+         'over each kind of previous occupant seeded with foreign entries. Byte snapshots of the target, its parent and the '
+         'content behind symlinks decide whether anything foreign was modified; exception classes are checked.',
+         'For a symlink that itself carries a protected name only the link target must stay untouched.'),
+ 'C18': ('fault_enumeration',
+         'enumerated single-field corruption catalogue applied to fresh copies; observe constructor/open/delete/truncate outcome + snapshot',
+         'Every single-field corruption of descriptor and data-file length (catalogue of ~130 per array kind, incl. every '
+         'byte amount from -all to +2 items) is applied to 1-D, N-D, empty and ragged sub-arrays and handed to each consumer; '
+         'a successful open, a by-path delete/truncate that does not raise TypeError, or any changed byte is a violation. '
+         'Enumerated completely; thorough repeats for all 26 type/byte-order bases.',
+         'Consistent-but-different descriptors are valid descriptions and out of scope; [] as shape is not judged.'),
+ 'C20': ('exploration',
+         'directory-snapshot monitor over the complete method x protected-name x spelling x mode matrix + generated user-file round trips',
+         'Each public DataDir writer/deleter/opener is called with every protected name of an Array and a RaggedArray '
+         '(including names below values/ and indices/) under nine spellings; the call must raise OSError and leave a '
+         'byte-identical snapshot. Generated JSON dicts and unicode texts are round-tripped through user files, the overwrite '
+         'gate and the exact-set semantics of delete_files are checked.',
+         'Absolute-path and symlink-alias spellings are not judged; mode "rb" is not judged.'),
  'C01': ('exploration',
          'reference-model monitor (np.asarray/astype/np.full) + independent decoder over a generated structure grid',
          'Generated creation calls over the product of type, byte order, memory layout, rank, input form, dtype argument, '
